@@ -121,6 +121,9 @@ def token_st(draw):
     elif kind == "defect":
         _k, octs = draw(G.defect_frame_st())
     else:
+        if draw(st.integers(0, 39)) == 39:
+            # a frame whose address never terminates: a long run of even octets (also beyond the 2047-octet maximum)
+            return bytes([0xA0, draw(st.integers(0, 255))]) + bytes([draw(st.sampled_from([0x02, 0x00, 0xFE, 0x10]))]) * draw(st.sampled_from([900, 1000, 1050, 1100]))
         return draw(G.noise_st)
     stuffed = draw(st.booleans())  # independent of the reader mode: a stuffing reader also sees unstuffed 7D/7E
     extra = frozenset(draw(st.lists(st.integers(0, 255), max_size=3))) if stuffed and draw(st.booleans()) else frozenset()
